@@ -1016,6 +1016,8 @@ void bufr_vprint_output(const char* format, ...)
 		char *tbuf = malloc(rc+1);
 		if( tbuf != NULL )
 			{
+			va_end(ap);
+			va_start(ap,format);
 			vsnprintf(tbuf, rc+1, format, ap);
 			bufr_print_output(tbuf);
 			free(tbuf);
@@ -1221,6 +1223,8 @@ void bufr_vprint_debug(const char* format, ...)
 		char *tbuf = malloc(rc+1);
 		if( tbuf != NULL )
 			{
+			va_end(ap);
+			va_start(ap,format);
 			vsnprintf(tbuf, rc+1, format, ap);
 			bufr_print_debug(tbuf);
 			free(tbuf);
